@@ -234,19 +234,28 @@ def vPublishInternalWith (lengths : Option (Nat × Nat)) (p : Publish) (s : Opti
 def vPublishInternal (p : Publish) (s : Option Settings) (r : Option Resolution) : VRes :=
   vPublishInternalWith (publishLengths5 p (r.getD {})) p s
 
-def vSubscribeInternal (p : Subscribe) (s : Option Settings) : VRes := do
-  sizeCheck (subscribeLengths5 p) s
+/-- the send-time checks of a SUBSCRIBE whose encoded lengths are `lengths` -/
+def vSubscribeInternalWith (lengths : Option (Nat × Nat)) (p : Subscribe) (s : Option Settings) : VRes := do
+  sizeCheck lengths s
   okIf (p.packetId ≠ 0)
   match s with
   | none => if p.subscriptions.isEmpty then .ok () else .error .panicNoSettings
   | some st => okIf (p.subscriptions.all (fun x => isValidFilterInternal x.topicFilter st (some x.noLocal)))
 
-def vUnsubscribeInternal (p : Unsubscribe) (s : Option Settings) : VRes := do
-  sizeCheck (unsubscribeLengths5 p) s
+def vSubscribeInternal (p : Subscribe) (s : Option Settings) : VRes := vSubscribeInternalWith (subscribeLengths5 p) p s
+
+/-- the send-time checks of an UNSUBSCRIBE whose encoded lengths are `lengths` -/
+def vUnsubscribeInternalWith (lengths : Option (Nat × Nat)) (p : Unsubscribe) (s : Option Settings) : VRes := do
+  sizeCheck lengths s
   okIf (p.packetId ≠ 0)
   match s with
   | none => if p.topicFilters.isEmpty then .ok () else .error .panicNoSettings
   | some st => okIf (p.topicFilters.all (fun f => isValidFilterInternal f st none))
+
+def vUnsubscribeInternal (p : Unsubscribe) (s : Option Settings) : VRes := vUnsubscribeInternalWith (unsubscribeLengths5 p) p s
+
+/-- the subscription the facade pads a SUBSCRIBE with (`padsubs=<n>x<len>`): a filter of `len` bytes 'a', QoS 1 -/
+def padSub (len : Nat) : Subscription := { topicFilter := List.replicate len 97, qos := 1 }
 
 /-- `connectSessionExpiry`: the CONNECT options' session expiry (0 if unset) -/
 def vDisconnectInternal (p : Disconnect) (s : Option Settings) (connectSessionExpiry : Nat) : VRes := do
